@@ -533,19 +533,43 @@ def main(argv):
     os.makedirs(logdir, exist_ok=True)
     rc_final = 2
     try:
-        crate, modmap = prepare_scratch(scratch, files)
-        for h in sel:
-            h.module = modmap[h.file]
         # ---- build once -------------------------------------------------------------------
+        # If the build fails because of errors located in harness files (typically a change to /repo that adds a struct
+        # field or renames a private item a harness names), those files -- and the files that @require them -- are left
+        # out, their harnesses are reported INCONCLUSIVE, and the remaining harnesses are built and run: one harness file
+        # that no longer compiles must not silence every other harness of the property.
         blog = os.path.join(logdir, "build.log")
         t0 = time.time()
-        feats = sorted({x for path, _ in files for x in FEATURES.get(path, [])})
-        if feats:
-            FEATURE_ARGS[:] = ["--features", ",".join(feats)]
-        nfeats = sorted(set(feats) | {x for path, _ in files for x in NATIVE_FEATURES.get(path, [])})
-        if nfeats:
-            NATIVE_FEATURE_ARGS[:] = ["--features", ",".join(nfeats)]
-        rc, to = run(KANI_BASE + FEATURE_ARGS + ["--only-codegen"], crate, blog, 1500)
+        build_dropped = []
+        for attempt in range(4):
+            crate, modmap = prepare_scratch(scratch, files)
+            for h in sel:
+                h.module = modmap[h.file]
+            feats = sorted({x for path, _ in files for x in FEATURES.get(path, [])})
+            FEATURE_ARGS[:] = ["--features", ",".join(feats)] if feats else []
+            nfeats = sorted(set(feats) | {x for path, _ in files for x in NATIVE_FEATURES.get(path, [])})
+            NATIVE_FEATURE_ARGS[:] = ["--features", ",".join(nfeats)] if nfeats else []
+            rc, to = run(KANI_BASE + FEATURE_ARGS + ["--only-codegen"], crate, blog, 1500)
+            if rc == 0:
+                break
+            text = open(blog, errors="replace").read()
+            names = [f for f, _ in files]
+            bad = {b for b in re.findall(r"--> (%s/[\w./-]+\.rs):\d+" % re.escape(HARNESS_DIR), text) if b in names}
+            changed = bool(bad)
+            while changed:
+                changed = False
+                for path in names:
+                    if path not in bad and any(r in bad for r in REQUIRES.get(path, [])):
+                        bad.add(path)
+                        changed = True
+            keep = [h for h in sel if h.file not in bad]
+            if not bad or attempt == 3 or not [h for h in keep if h.kind != "gate"]:
+                break
+            shutil.copy(blog, os.path.join(logdir, "build.attempt%d.log" % attempt))
+            build_dropped += [h for h in sel if h.file in bad]
+            sel = keep
+            files = [(p_, t_) for p_, t_ in files if p_ not in bad]
+            print("  build: %s do(es) not compile against the current tree; continuing without" % ", ".join(sorted(os.path.basename(b) for b in bad)), flush=True)
         build_s = round(time.time() - t0, 1)
         if rc != 0:
             tail = "".join(open(blog, errors="replace").readlines()[-40:])
@@ -565,6 +589,9 @@ def main(argv):
         # ---- classify ---------------------------------------------------------------------
         findings, fixed = load_known()
         violations, inconclusive, known_lines = [], [], []
+        for h in build_dropped:
+            if h.kind != "gate":
+                inconclusive.append("%s: its harness file %s does not compile against the current tree (see logs/build.attempt*.log)" % (h.name, os.path.basename(h.file)))
         os.makedirs(REPLAY_DIR, exist_ok=True)
         for h in sel:
             r = results[h.name]
